@@ -65,6 +65,8 @@ def generate(run_seed, tier):
     else:
         nr = r.choice([1, 1, 2, 2, 3])
         nw = r.choice([0, 1, 1, 2, 2])
+        if tier == "thorough" and r.random() < 0.15:
+            nr, nw = r.choice([(3, 2), (4, 2), (3, 3)])
         if nr + nw < 2:
             nw = 1
         for _ in range(nr):
